@@ -632,7 +632,12 @@ func (p *Parser) parseSwitch() ast.Node {
 			isDefaultCase = true
 		} else if p.curTokenIs(token.CASE) {
 			p.nextToken() // move to the token following "case"
-			caseExprs = append(caseExprs, p.parseExpression(LOWEST))
+			caseExpr := p.parseExpression(LOWEST)
+			if caseExpr == nil {
+				p.setTokenError(p.curToken, "invalid case expression")
+				return nil
+			}
+			caseExprs = append(caseExprs, caseExpr)
 			for p.peekTokenIs(token.COMMA) {
 				// The parser does not advance once an error has been recorded,
 				// so stop here instead of looking at the same comma forever
@@ -642,7 +647,12 @@ func (p *Parser) parseSwitch() ast.Node {
 				if err := p.nextToken(); err != nil { // move to the following expression
 					return nil
 				}
-				caseExprs = append(caseExprs, p.parseExpression(LOWEST))
+				caseExpr := p.parseExpression(LOWEST)
+				if caseExpr == nil {
+					p.setTokenError(p.curToken, "invalid case expression")
+					return nil
+				}
+				caseExprs = append(caseExprs, caseExpr)
 			}
 		} else {
 			p.setTokenError(p.curToken, "expected 'case' or 'default' (got %s)", p.curToken.Literal)
